@@ -140,7 +140,10 @@ fn main() {
     if let Some(path) = arg("--approx") {
         for (ci, case) in read_ndjson(&path).iter().enumerate() {
             let pts = case["points"].as_array().unwrap();
-            let loc = |p: &Value| json!({"lat": 52.0 + p[0].as_f64().unwrap() * 0.013, "lng": 13.0 + p[1].as_f64().unwrap() * 0.017});
+            let loc = |p: &Value| {
+                let m = p[2].as_f64().unwrap();
+                json!({"lat": 52.0 + p[0].as_f64().unwrap() * 0.013 + m * 0.00002, "lng": 13.0 + p[1].as_f64().unwrap() * 0.017 + m * 0.00003})
+            };
             let jobs: Vec<Value> = pts.iter().enumerate().skip(1).map(|(i, p)| json!({"id": format!("j{i}"), "deliveries": [{"places": [{"location": loc(p), "duration": 1.0}], "demand": [1]}]})).collect();
             let problem = json!({"plan": {"jobs": jobs},
                 "fleet": {"vehicles": [{"typeId": "v", "vehicleIds": ["v1"], "profile": {"matrix": "car"}, "costs": {"fixed": 0.0, "distance": 1.0, "time": 1.0},
@@ -148,10 +151,18 @@ fn main() {
                           "profiles": [{"name": "car"}, {"name": "slow", "speed": 5.0}]}});
             let api = vrp_pragmatic::format::problem::deserialize_problem(std::io::BufReader::new(problem.to_string().as_bytes())).unwrap();
             let ms = vrp_pragmatic::format::problem::create_approx_matrices(&api);
+            // the coordinate index: position of every given point, number of distinct locations, a given point for every index
+            let coord_index = vrp_pragmatic::format::CoordIndex::new(&api);
+            let as_location = |p: &Value| -> vrp_pragmatic::format::Location { serde_json::from_value(loc(p)).unwrap() };
+            let index: Vec<i64> = pts.iter().map(|p| coord_index.get_by_loc(&as_location(p)).map(|i| i as i64).unwrap_or(-1)).collect();
+            let unique = coord_index.unique().len();
+            let back: Vec<usize> = (0..unique)
+                .map(|idx| coord_index.get_by_idx(idx).and_then(|l| pts.iter().position(|p| serde_json::to_value(&l).unwrap() == serde_json::to_value(as_location(p)).unwrap())).map(|p| p + 1).unwrap_or(0))
+                .collect();
             for m in ms.iter() {
                 let n = (m.distances.len() as f64).sqrt().round() as usize;
                 let table = |v: &Vec<i64>| (0..n).map(|i| v[i * n..(i + 1) * n].to_vec()).collect::<Vec<_>>();
-                out.write(&json!({"c": ci + 1, "kind": "approx", "profile": m.profile, "dist": table(&m.distances), "dur": table(&m.travel_times)}));
+                out.write(&json!({"c": ci + 1, "kind": "approx", "profile": m.profile, "dist": table(&m.distances), "dur": table(&m.travel_times), "index": index, "unique": unique, "back": back}));
             }
         }
     }
